@@ -257,6 +257,10 @@ class Quaternion(TupleCoord):
 
     def data(self, wanted_components=None):
         if wanted_components == 3:
+            # W is reconstructed as the positive root when unpacking, (x, y, z, w) and
+            # (-x, -y, -z, -w) are the same rotation so pick the one with positive W.
+            if self.W < 0:
+                return -self.X, -self.Y, -self.Z
             return self.X, self.Y, self.Z
         return self.X, self.Y, self.Z, self.W
 
